@@ -275,12 +275,13 @@ impl Check for C08 {
         }
         flush(ctx, &mut cases, self)?;
         // (4) evaluation-level reading
-        let triples: [(&str, &str, &str); 6] = [("7", "3", "2"), ("true", "false", "true"), ("2", "2", "3"), ("-7", "3", "-2"), ("1", "0", "1"), ("5", "5", "1")];
+        let triples: [(&str, &str, &str); 13] = [("7", "3", "2"), ("2", "2", "3"), ("-7", "3", "-2"), ("1", "0", "1"), ("5", "5", "1"), ("true", "true", "true"), ("true", "true", "false"), ("true", "false", "true"), ("true", "false", "false"), ("false", "true", "true"), ("false", "true", "false"), ("false", "false", "true"), ("false", "false", "false")];
         for o1 in &OPS {
             for o2 in &OPS {
                 for (a, b, c3) in triples {
                     cases.push(Case::new(format!("print({} {} {} {} {})\n", a, o1, b, o2, c3), T_EVAL, format!("eval {} {} on {} {} {}", o1, o2, a, b, c3)));
                     cases.push(Case::new(format!("a := {}\nb := {}\nc := {}\nprint(a {} b {} c)\n", a, b, c3, o1, o2), T_EVAL, format!("eval {} {} on variables {} {} {}", o1, o2, a, b, c3)));
+                    cases.push(Case::new(format!("a := {}\nb := {}\nc := {}\nprint((a {} b) {} c)\nprint(a {} (b {} c))\n", a, b, c3, o1, o2, o1, o2), T_EVAL, format!("eval parenthesised {} {} on variables {} {} {}", o1, o2, a, b, c3)));
                 }
             }
         }
